@@ -173,17 +173,28 @@ func (S *LevelDbStore) Update(store CRLStore) error {
 	if err != nil {
 		return err
 	}
+	//from here on the previous database is closed: whenever a later step fails it is put back and opened again, so
+	//that a failed update leaves the store answering from the previous crl (or, if that is impossible too, closed,
+	//which makes every lookup fail instead of answering "not revoked")
+	levelDBPath := filepath.Join(S.BasePath, S.Identifier)
 	err = S.closeDbWithRetries(levelDbNew.Db)
 	if err != nil {
+		S.reopenPreviousDb(levelDBPath)
 		return err
 	}
-	levelDBPath := filepath.Join(S.BasePath, S.Identifier)
 	levelDBPathTemp, err := S.renameWithRetriesToTempDir(S.LevelDBPath)
 	if err != nil {
+		S.reopenPreviousDb(levelDBPath)
 		return err
 	}
 	err = S.renameWithRetries(levelDbNew.LevelDBPath, levelDBPath)
 	if err != nil {
+		rollbackErr := S.renameWithRetries(levelDBPathTemp, levelDBPath)
+		if rollbackErr != nil {
+			S.Logger.Error("failed to restore the previous crl database", zap.String("path", levelDBPathTemp), zap.Error(rollbackErr))
+			return err
+		}
+		S.reopenPreviousDb(levelDBPath)
 		return err
 	}
 
@@ -197,6 +208,15 @@ func (S *LevelDbStore) Update(store CRLStore) error {
 	}
 	S.Db = db
 	return nil
+}
+
+func (S *LevelDbStore) reopenPreviousDb(levelDBPath string) {
+	db, err := openDbWithRetries(levelDBPath, S.Logger)
+	if err != nil {
+		S.Logger.Error("failed to reopen the previous crl database", zap.String("path", levelDBPath), zap.Error(err))
+		return
+	}
+	S.Db = db
 }
 
 func (S *LevelDbStore) closeDbWithRetries(db *leveldb.DB) error {
